@@ -871,7 +871,10 @@ def one_block(ctx: Ctx):
         if 'diagram_task_relationship' in src(cp.elt):
             okr = it.endswith('task_type_to_rels.items()') and len(gen.ifs) <= 1
             if gen.ifs and isinstance(gen.target, ast.Tuple):
-                okr = okr and isinstance(gen.ifs[0], ast.Name) and gen.ifs[0].id == gen.target.elts[1].id
+                v = gen.target.elts[1].id if isinstance(gen.target.elts[1], ast.Name) else None
+                have = formula_of(ctx, ds, gen.ifs[0])
+                okr = okr and v is not None and any(equivalent(have, formula_of(ctx, ds, t.format(v=v)))
+                                                    for t in ('{v}', 'len({v}) > 0', 'len({v}) != 0', 'bool({v})'))
     yield ctx.ob('C20.ONE-BLOCK', okc, ds, ds.node, 'one class block per registered type, unfiltered', '' if okc else
                  'class blocks are not produced for every registered type', construct='blocks')
     yield ctx.ob('C20.ONE-BLOCK', okr, ds, ds.node, 'relationships of every type rendered (only empty maps skipped)', '' if okr else
